@@ -21,11 +21,17 @@ fn values(t: Comp) -> (Tree, Tree) {
         Comp::B => (Tree::B(true), Tree::B(false)),
         Comp::I => (Tree::I(1), Tree::I(2)),
         Comp::F => (Tree::F(1.5), Tree::F(f32::NAN)),
-        Comp::BV => (Tree::BV(vec![true]), Tree::BV(vec![])),
-        Comp::IV => (Tree::IV(vec![1, 2]), Tree::IV(vec![])),
-        Comp::FV => (Tree::FV(vec![1.5]), Tree::FV(vec![])),
+        Comp::BV => (Tree::BV((0..40).map(|k| k % 3 == 0).collect()), Tree::BV(vec![])),
+        Comp::IV => (Tree::IV((0..40).collect()), Tree::IV(vec![])),
+        Comp::FV => (Tree::FV((0..40).map(|k| k as f32 + 0.5).collect()), Tree::FV(vec![])),
         _ => unreachable!(),
     }
+}
+
+/// a 61-point body (three sublists of 19 NOOPs): larger than max-points-in-random-expressions, smaller than
+/// max-points-in-program; executing it changes nothing but EXEC
+fn big_body() -> Tree {
+    Tree::L((0..3).map(|_| Tree::L((0..19).map(|_| Tree::ins("NOOP")).collect())).collect())
 }
 
 fn alphabet(prefix: &str, t: Comp) -> Vec<Act> {
@@ -44,12 +50,14 @@ fn alphabet(prefix: &str, t: Comp) -> Vec<Act> {
             // values reach the CODE stack through CODE.QUOTE <item>
             a.push(Act::Tok(Tree::L(vec![Tree::ins("CODE.QUOTE"), Tree::I(7)])));
             a.push(Act::Tok(Tree::L(vec![Tree::ins("CODE.QUOTE"), Tree::L(vec![Tree::I(8), Tree::name("Y")])])));
+            a.push(Act::Tok(Tree::L(vec![Tree::ins("CODE.QUOTE"), big_body()])));
         }
         Comp::E => {
             // EXEC.DEFINE takes the next item on EXEC: supply it together with the instruction
             a.retain(|x| !matches!(x, Act::Tok(Tree::Ins(n)) if n == "EXEC.DEFINE"));
             a.push(Act::Tok(Tree::L(vec![Tree::ins("EXEC.DEFINE"), Tree::I(7)])));
             a.push(Act::Tok(Tree::L(vec![Tree::ins("EXEC.DEFINE"), Tree::L(vec![Tree::I(8), Tree::name("Y")])])));
+            a.push(Act::Tok(Tree::L(vec![Tree::ins("EXEC.DEFINE"), big_body()])));
         }
         _ => {
             let (v1, v2) = values(t);
